@@ -988,3 +988,1155 @@ Proof.
     + cbn [negb fst]. unfold with_field. apply (inv_with_field s1 _ _ I1). intros; discriminate.
 Qed.
 
+(* ------------------------------------------------------------------ *)
+(* a loop over the metadata constructs (constructs=True)               *)
+(* ------------------------------------------------------------------ *)
+Definition functional (l : list centry) : Prop :=
+  forall t k p, In (t, k, p) l -> cget t k l = Some p.
+
+Lemma inv_functional s : Inv s -> functional (cons s).
+Proof. intros I t k p H. apply (inv_held s I t k p H). Qed.
+
+Lemma In_cget_some t k p l : In (t, k, p) l -> cget t k l <> None.
+Proof.
+  induction l as [|e r IH]; simpl; [contradiction|].
+  intros [->|H]; [rewrite same_entry_refl; discriminate|].
+  destruct (same_entry t k e); [discriminate|auto].
+Qed.
+
+(* a key-preserving map over the constructs *)
+Lemma cget_map_keyed (g : centry -> centry) t k l :
+  (forall e, In e l -> ctyp (g e) = ctyp e /\ ckey (g e) = ckey e) ->
+  cget t k (map g l) = match cget t k l with Some p => Some (snd (g (t, k, p))) | None => None end.
+Proof.
+  induction l as [|e r IH]; intro H; [reflexivity|].
+  cbn [map cget].
+  assert (Hs : same_entry t k (g e) = same_entry t k e).
+  { destruct (H e (or_introl eq_refl)) as [A B]. unfold same_entry, ctyp, ckey in *. rewrite A, B. reflexivity. }
+  rewrite Hs. destruct (same_entry t k e) eqn:E.
+  - apply same_entry_true in E as [E1 E2]. destruct e as [[a b] c]; simpl in *; subst. reflexivity.
+  - apply IH. intros; apply H; right; assumption.
+Qed.
+
+Definition g_full (f : entry_fn) (e : centry) : centry * option (key * list key) :=
+  match f e with Some r => r | None => (e, None) end.
+
+Lemma mapM_g_full (f : entry_fn) l res : mapM f l = Some res -> res = map (g_full f) l.
+Proof.
+  revert res; induction l as [|e r IH]; intros res H; simpl in H.
+  - inversion H; reflexivity.
+  - unfold g_full at 1. destruct (f e) eqn:E; [|discriminate].
+    destruct (mapM f r) eqn:E2; [|discriminate]. inversion H; subst. simpl. rewrite E.
+    f_equal. apply IH; reflexivity.
+Qed.
+
+(* the loop gives, for some choice function g that either leaves a construct
+   alone or applies the body to it, the image of the constructs under g *)
+Lemma loop_constructs_spec f done c cax :
+  exists g b, (forall e, g e = (e, None) \/ f e = Some (g e)) /\
+    loop_constructs f done c cax =
+    (map (fun e => fst (g e)) c, apply_updates (map (fun e => snd (g e)) c) cax, b).
+Proof.
+  unfold loop_constructs. destruct (mapM f c) as [res|] eqn:E.
+  - exists (g_full f), true. split.
+    + intro e. unfold g_full. destruct (f e); auto.
+    + rewrite (mapM_g_full f c res E), !map_map. reflexivity.
+  - exists (partial_entry f done), false. split.
+    + intro e. unfold partial_entry. destruct (memb (snd (fst e)) done); auto.
+      destruct (f e); auto.
+    + rewrite !map_map. reflexivity.
+Qed.
+
+Lemma apply_updates_assoc ups : forall cax k a,
+  assoc k (apply_updates ups cax) = Some a ->
+  In (Some (k, a)) ups \/ (assoc k cax = Some a /\ forall a', ~ In (Some (k, a')) ups).
+Proof.
+  induction ups as [|[[k' a']|] r IH]; intros cax k a H; simpl in H.
+  - right. split; [assumption|]. intros a' [].
+  - destruct (IH _ _ _ H) as [Hin|[Ha Hno]].
+    + left; right; assumption.
+    + rewrite assoc_aset_full in Ha. destruct (String.eqb k k') eqn:E.
+      * apply String.eqb_eq in E. subst k'. inversion Ha; subst. left; left; reflexivity.
+      * right. split; [assumption|]. intros a'' [Heq|Hin]; [|eapply Hno; eauto].
+        inversion Heq; subst. rewrite String.eqb_refl in E. discriminate.
+  - destruct (IH _ _ _ H) as [Hin|[Ha Hno]].
+    + left; right; assumption.
+    + right. split; [assumption|]. intros a'' [Heq|Hin]; [discriminate|eapply Hno; eauto].
+Qed.
+
+(* what the body of such a loop must satisfy *)
+Definition entry_good (s : cstate) (f : entry_fn) : Prop :=
+  forall t k p e' u, In (t, k, p) (cons s) -> f (t, k, p) = Some (e', u) ->
+    exists p', e' = (t, k, p') /\ kind_ok t p' = true /\
+      match u with
+      | None => p' = p
+      | Some (k', a) => k' = k /\ is_array t = true /\ check_axes (cons s) p' a = true
+      end.
+
+Lemma loop_inv s f g fs fa :
+  Inv s -> entry_good s f ->
+  (forall e, g e = (e, None) \/ f e = Some (g e)) ->
+  (forall ax, fa = Some ax -> check_field_axes (cons s) fs ax = true) ->
+  Inv (mkS (map (fun e => fst (g e)) (cons s)) (ctys s)
+           (apply_updates (map (fun e => snd (g e)) (cons s)) (caxes s)) fs fa).
+Proof.
+  intros I Hgood Hg Hfield.
+  set (g1 := fun e => fst (g e)).
+  (* every construct keeps its type and key; what else happens to it *)
+  assert (Hent : forall t k p, In (t, k, p) (cons s) ->
+            exists p', g1 (t, k, p) = (t, k, p') /\ kind_ok t p' = true /\
+              match snd (g (t, k, p)) with
+              | None => p' = p
+              | Some (k', a) => k' = k /\ is_array t = true /\ check_axes (cons s) p' a = true
+              end).
+  { intros t k p Hin. unfold g1. destruct (Hg (t, k, p)) as [H|H].
+    - rewrite H. exists p. simpl. destruct (inv_held s I t k p Hin) as [_ [Hk _]]. auto.
+    - destruct (g (t, k, p)) as [e' u] eqn:E. apply (Hgood t k p e' u Hin H). }
+  assert (Hkey : forall e, In e (cons s) -> ctyp (g1 e) = ctyp e /\ ckey (g1 e) = ckey e).
+  { intros [[t k] p] Hin. destruct (Hent t k p Hin) as [p' [H _]]. rewrite H. auto. }
+  assert (Hcget : forall t k, cget t k (map g1 (cons s)) =
+            match cget t k (cons s) with Some p => Some (snd (g1 (t, k, p))) | None => None end).
+  { intros. apply cget_map_keyed. exact Hkey. }
+  (* constructs that are not arrays are not touched *)
+  assert (Hnon : forall t k p, In (t, k, p) (cons s) -> is_array t = false -> g1 (t, k, p) = (t, k, p)).
+  { intros t k p Hin Ht. destruct (Hent t k p Hin) as [p' [H [_ Hu]]]. rewrite H.
+    destruct (snd (g (t, k, p))) as [[k' a]|]; [|subst; reflexivity].
+    destruct Hu as [_ [Hu _]]. congruence. }
+  assert (Hsz : forall a, axis_size (map g1 (cons s)) a = axis_size (cons s) a).
+  { intro a. unfold axis_size. rewrite Hcget. destruct (cget DomainAxis a (cons s)) as [p|] eqn:E; [|reflexivity].
+    apply cget_In in E. rewrite (Hnon _ _ _ E eq_refl). reflexivity. }
+  constructor; cbn [cons ctys caxes fshape faxes]; fold g1.
+  - intros t k p' Hin. apply in_map_iff in Hin as [[[t0 k0] p] [Heq Hin]].
+    destruct (Hent t0 k0 p Hin) as [q [H [Hk _]]]. rewrite H in Heq. inversion Heq; subst.
+    destruct (inv_held s I t k p Hin) as [A [_ C]]. splits; auto.
+    rewrite Hcget, C, H. reflexivity.
+  - intros k t H. destruct (inv_typed s I k t H) as [p Hp]. rewrite Hcget, Hp. eauto.
+  - intros k axs H. apply apply_updates_assoc in H as [Hin|[Hold Hno]].
+    + apply in_map_iff in Hin as [[[t0 k0] p] [Heq Hin]].
+      destruct (Hent t0 k0 p Hin) as [q [H [Hk Hu]]]. rewrite Heq in Hu. destruct Hu as [-> [Harr Hc]].
+      destruct (inv_held s I t0 k0 p Hin) as [A [_ C]].
+      exists t0, q. splits; auto.
+      * rewrite Hcget, C, H. reflexivity.
+      * rewrite <- Hc. apply check_axes_ext. intros; apply Hsz.
+    + destruct (inv_axes s I k axs Hold) as [t [p [A [B [C D]]]]].
+      pose proof (cget_In _ _ _ _ C) as Hin.
+      destruct (Hent t k p Hin) as [q [H [Hk Hu]]].
+      assert (q = p).
+      { match type of Hu with match ?x with _ => _ end => destruct x as [[k' a]|] eqn:E end; [|assumption].
+        destruct Hu as [-> _]. exfalso. apply (Hno a). apply in_map_iff. exists (t, k, p). auto. }
+      subst q. exists t, p. splits; auto.
+      * rewrite Hcget, C, H. reflexivity.
+      * rewrite <- D. apply check_axes_ext. intros; apply Hsz.
+  - intros ax Hax. rewrite <- (Hfield ax Hax). apply check_field_axes_ext. intros; apply Hsz.
+  - intros rk cs ancs Hin. apply in_map_iff in Hin as [[[t0 k0] p] [Heq Hin]].
+    destruct (Hkey _ Hin) as [Ht _]. rewrite Heq in Ht. cbn in Ht. subst t0.
+    rewrite (Hnon _ _ _ Hin eq_refl) in Heq. inversion Heq; subst.
+    apply (inv_refs s I rk cs ancs Hin).
+  - intros ck axs Hin a Ha. apply in_map_iff in Hin as [[[t0 k0] p] [Heq Hin]].
+    destruct (Hkey _ Hin) as [Ht _]. rewrite Heq in Ht. cbn in Ht. subst t0.
+    rewrite (Hnon _ _ _ Hin eq_refl) in Heq. inversion Heq; subst.
+    rewrite Hsz. eapply (inv_cms s I); eauto.
+Qed.
+
+(* the recorded axes of a held construct fit its shape *)
+Lemma held_axes_fit s t k p ca :
+  Inv s -> In (t, k, p) (cons s) -> assoc k (caxes s) = Some ca ->
+  is_array t = true /\ check_axes (cons s) p ca = true.
+Proof.
+  intros I Hin Ha. destruct (inv_axes s I k ca Ha) as [t0 [p0 [A [B [C D]]]]].
+  destruct (inv_held s I t k p Hin) as [A' [_ C']].
+  assert (t0 = t) by congruence. subst. assert (p0 = p) by congruence. subst. auto.
+Qed.
+
+Lemma check_axes_some c sh h b ax :
+  check_axes c (PArr (Some sh) h b) ax = true <-> axes_sizes c ax = Some sh.
+Proof.
+  unfold check_axes. simpl. destruct (axes_sizes c ax) as [szs|]; split; intro H; try discriminate.
+  - apply zlist_eqb_eq in H. congruence.
+  - inversion H; subst. apply zlist_eqb_refl.
+Qed.
+
+Lemma index_of_nth a l : forall j i, index_of a l j = Some i ->
+  j <= i /\ nth_error l (Z.to_nat (i - j)) = Some a.
+Proof.
+  induction l as [|x r IH]; intros j i H; simpl in H; [discriminate|].
+  destruct (String.eqb a x) eqn:E.
+  - inversion H; subst. apply String.eqb_eq in E. subst. rewrite Z.sub_diag. split; [lia|reflexivity].
+  - destruct (IH _ _ H) as [A B]. split; [lia|].
+    replace (Z.to_nat (i - j)) with (S (Z.to_nat (i - (j + 1)))) by lia. exact B.
+Qed.
+
+Lemma axes_sizes_nth' c ax szs i a :
+  axes_sizes c ax = Some szs -> nth_error ax i = Some a ->
+  exists n, nth_error szs i = Some n /\ axis_size c a = Some n.
+Proof.
+  revert szs i; induction ax as [|x r IH]; intros szs i H Hn; simpl in H.
+  - destruct i; discriminate.
+  - destruct (axis_size c x) eqn:Ea; [|discriminate]. destruct (axes_sizes c r) eqn:E; [|discriminate].
+    inversion H; subst. destruct i; simpl in *.
+    + inversion Hn; subst. eauto.
+    + eapply IH; eauto.
+Qed.
+
+(* permuting a shape by the positions of the new axes in the old ones *)
+Lemma axes_sizes_reorder c ca sh : axes_sizes c ca = Some sh ->
+  forall nca perm sh', mapM (fun a => index_of a ca 0) nca = Some perm ->
+  permute sh perm = Some sh' -> axes_sizes c nca = Some sh'.
+Proof.
+  intro H. induction nca as [|a r IH]; intros perm sh' Hm Hp; simpl in Hm.
+  - inversion Hm; subst. simpl in Hp. inversion Hp; reflexivity.
+  - destruct (index_of a ca 0) as [i|] eqn:Ei; [|discriminate].
+    destruct (mapM (fun a0 => index_of a0 ca 0) r) as [pr|] eqn:Er; [|discriminate].
+    inversion Hm; subst. simpl in Hp. unfold nthZ in Hp.
+    destruct (index_of_nth _ _ _ _ Ei) as [Hi Hn]. rewrite Z.sub_0_r in Hn.
+    destruct (i <? 0); [discriminate|].
+    destruct (nth_error sh (Z.to_nat i)) as [n|] eqn:En; [|discriminate].
+    destruct (permute sh pr) as [shr|] eqn:Epr; [|discriminate]. inversion Hp; subst.
+    destruct (axes_sizes_nth' c ca sh _ _ H Hn) as [m [Hm' Hs]].
+    assert (m = n) by congruence. subst. simpl. rewrite Hs, (IH pr shr eq_refl Epr). reflexivity.
+Qed.
+
+Lemma transpose_entry_good s nda : Inv s -> entry_good s (transpose_entry nda (caxes s)).
+Proof.
+  intros I t k p e' u Hin H. destruct (inv_held s I t k p Hin) as [_ [Hk _]].
+  unfold transpose_entry in H.
+  destruct p as [n|sh hd bnd|cs ancs|axs];
+    try (inversion H; subst; exists (PAxis n); auto; fail);
+    try (inversion H; subst; eexists; split; [reflexivity|]; split; [assumption|reflexivity]; fail).
+  destruct sh as [sh|]; [|inversion H; subst; eexists; split; [reflexivity|]; auto].
+  destruct hd; [|inversion H; subst; eexists; split; [reflexivity|]; auto].
+  destruct (is_array t && (2 <=? length sh)%nat) eqn:Ea;
+    [|inversion H; subst; eexists; split; [reflexivity|]; auto].
+  apply andb_true_iff in Ea as [Ea _].
+  destruct (assoc k (caxes s)) as [ca|] eqn:Eca; [|discriminate].
+  destruct (mapM (fun a => index_of a ca 0) (new_construct_axes nda ca)) as [perm|] eqn:Em; [|discriminate].
+  destruct (negb (nodupb perm && Nat.eqb (length perm) (length sh))); [discriminate|].
+  destruct (permute sh perm) as [sh'|] eqn:Ep; [|discriminate]. inversion H; subst.
+  eexists; split; [reflexivity|]. split; [exact Hk|]. splits; auto.
+  destruct (held_axes_fit s t k _ ca I Hin Eca) as [_ Hc]. apply check_axes_some in Hc.
+  apply check_axes_some. eapply axes_sizes_reorder; eauto.
+Qed.
+
+Lemma insert_entry_good s a cpos ax0 :
+  Inv s -> axis_size (cons s) a = Some 1 -> entry_good s (insert_entry a cpos ax0 (caxes s)).
+Proof.
+  intros I Ha t k p e' u Hin H. destruct (inv_held s I t k p Hin) as [_ [Hk _]].
+  unfold insert_entry in H.
+  destruct p as [n|sh hd bnd|cs ancs|axs];
+    try (inversion H; subst; eexists; split; [reflexivity|]; split; [assumption|reflexivity]; fail).
+  destruct sh as [sh|]; [|inversion H; subst; eexists; split; [reflexivity|]; auto].
+  destruct hd; [|inversion H; subst; eexists; split; [reflexivity|]; auto].
+  destruct (is_array t) eqn:Ea; [|inversion H; subst; eexists; split; [reflexivity|]; auto].
+  destruct (assoc k (caxes s)) as [ca|] eqn:Eca; [|discriminate].
+  destruct (memb a ca); [inversion H; subst; eexists; split; [reflexivity|]; auto|].
+  cbv zeta in H.
+  match type of H with (if ?c then None else _) = _ => destruct c; [discriminate|] end.
+  inversion H; subst. eexists; split; [reflexivity|]. split; [exact Hk|]. splits; auto.
+  destruct (held_axes_fit s t k _ ca I Hin Eca) as [_ Hc]. apply check_axes_some in Hc.
+  apply check_axes_some. apply axes_sizes_insert; assumption.
+Qed.
+
+(* the loop as used by transpose / insert_dimension: whatever it returns is consistent *)
+Lemma loop_constructs_inv s f done fs fa c' cax' b :
+  Inv s -> entry_good s f ->
+  (forall ax, fa = Some ax -> check_field_axes (cons s) fs ax = true) ->
+  loop_constructs f done (cons s) (caxes s) = (c', cax', b) ->
+  Inv (mkS c' (ctys s) cax' fs fa).
+Proof.
+  intros I Hgood Hf H.
+  destruct (loop_constructs_spec f done (cons s) (caxes s)) as [g [b' [Hg Heq]]].
+  rewrite Heq in H. inversion H; subst. apply loop_inv with f; assumption.
+Qed.
+
+Lemma transpose_inv_full axes c inplace done s : Inv s -> Inv (fst (transpose axes c inplace done s)).
+Proof.
+  intros I. unfold transpose.
+  destruct (negb inplace && negb (copyable s)); [exact I|].
+  destruct (fshape s) as [sh|] eqn:Esh; [|exact I].
+  match goal with |- context [match ?x with Some ia => _ | None => (s, Rejected ValueErr) end] =>
+    destruct x as [ia|] end; [|exact I].
+  destruct (permute sh ia) as [sh'|] eqn:Ep; [|exact I].
+  assert (Hnone : Inv (with_field s (Some sh') None)).
+  { unfold with_field. apply (inv_with_field s _ _ I). intros; discriminate. }
+  destruct (faxes s) as [ax|] eqn:Eax.
+  - pose proof (inv_field s I ax Eax) as Hf. rewrite Esh in Hf. apply check_field_some in Hf.
+    destruct (axes_sizes_permute (cons s) ax sh ia sh' Hf Ep) as [ax' [H1 H2]].
+    rewrite H1. apply check_field_some in H2. rewrite H2. cbn [negb].
+    destruct c; cbn [negb].
+    + destruct (loop_constructs (transpose_entry ax' (caxes s)) done (cons s) (caxes s)) as [[c' cax'] b] eqn:El.
+      assert (Hl : Inv (mkS c' (ctys s) cax' (Some sh') (Some ax'))).
+      { eapply loop_constructs_inv; eauto.
+        - apply transpose_entry_good; assumption.
+        - intros a Ha. inversion Ha; subst. exact H2. }
+      destruct b; cbn [fst]; [exact Hl|]. destruct inplace; assumption.
+    + cbn [fst]. unfold with_field. apply (inv_with_field s _ _ I). intros a Ha. inversion Ha; subst. exact H2.
+  - cbv zeta.
+    match goal with |- context [if ?c then _ else (with_field s (Some sh') None, Done)] => destruct c end;
+      [|exact Hnone].
+    assert (Hb : Inv (if inplace then with_field s (Some sh') None else s)) by (destruct inplace; assumption).
+    repeat match goal with |- context [if ?c then _ else _] => destruct c end; cbn [fst]; assumption.
+Qed.
+
+Lemma insert_dimension_inv_full axis pos c inplace done s :
+  Inv s -> Inv (fst (insert_dimension axis pos c inplace done s)).
+Proof.
+  intros I. unfold insert_dimension.
+  destruct (negb inplace && negb (copyable s)); [exact I|].
+  (* the axis *)
+  assert (Hr : forall r, r = (match axis with
+           | None => match set_construct VField DomainAxis (PAxis 1) None None s, new_identifier s DomainAxis with
+                     | (s1, Done), Some a => inl (s1, a)
+                     | (_, Done), None => inr OutOfModel
+                     | (_, o), _ => inr o end
+           | Some a => match axis_size (cons s) a with
+                       | Some 1 => inl (s, a)
+                       | _ => inr (Rejected ValueErr) end
+           end) ->
+           match r with
+           | inr _ => True
+           | inl (s1, a) => Inv s1 /\ axis_size (cons s1) a = Some 1
+           end).
+  { intros r ->. destruct axis as [a|].
+    - destruct (axis_size (cons s) a) as [[|[| |]|]|] eqn:E; auto.
+    - destruct (new_identifier s DomainAxis) as [a|] eqn:En.
+      + rewrite (set_new_axis s a I En). split.
+        * pose proof (set_construct_inv VField DomainAxis (PAxis 1) None None s I Coq.Init.Logic.I) as H.
+          rewrite (set_new_axis s a I En) in H. exact H.
+        * cbn [cons]. rewrite axis_size_cset_axis, String.eqb_refl. reflexivity.
+      + destruct (set_construct VField DomainAxis (PAxis 1) None None s) as [s1 [| |]]; exact Coq.Init.Logic.I. }
+  match goal with |- context [match ?x with inl _ => _ | inr _ => _ end] =>
+    specialize (Hr x eq_refl); destruct x as [[s1 a]|o] end; [|exact I].
+  destruct Hr as [I1 Ha].
+  assert (Hback : Inv (if inplace then s1 else s)) by (destruct inplace; assumption).
+  (* the end of every branch: with or without the loop over the constructs *)
+  assert (Hend : forall sh' ax' cpos ax0,
+            (forall x, ax' = Some x -> check_field_axes (cons s1) sh' x = true) ->
+            Inv (fst (if negb c then (with_field s1 sh' ax', Done)
+                      else match loop_constructs (insert_entry a cpos ax0 (caxes s1)) done (cons s1) (caxes s1) with
+                           | (c', cax', true) => (mkS c' (ctys s1) cax' sh' ax', Done)
+                           | (c', cax', false) =>
+                               ((if inplace then mkS c' (ctys s1) cax' sh' ax' else s), Rejected ValueErr)
+                           end))).
+  { intros sh' ax' cpos ax0 Hc. destruct c; cbn [negb].
+    - destruct (loop_constructs (insert_entry a cpos ax0 (caxes s1)) done (cons s1) (caxes s1)) as [[c' cax'] b] eqn:El.
+      assert (Hl : Inv (mkS c' (ctys s1) cax' sh' ax')).
+      { eapply loop_constructs_inv; eauto. apply insert_entry_good; assumption. }
+      destruct b; cbn [fst]; [exact Hl|]. destruct inplace; assumption.
+    - cbn [fst]. unfold with_field. apply (inv_with_field s1 _ _ I1). exact Hc. }
+  destruct (faxes s1) as [ax|] eqn:Eax.
+  - destruct (memb a ax); [exact Hback|].
+    cbv zeta.
+    set (nd := Z.of_nat (length ax)).
+    set (pos1 := if (- nd - 1 <=? pos) && (pos <? 0) then pos + nd + 1 else pos).
+    pose proof (inv_field s1 I1 ax Eax) as Hf.
+    destruct (fshape s1) as [sh|] eqn:Esh.
+    + apply check_field_some in Hf.
+      assert (Hlen : Z.of_nat (length sh) = nd).
+      { unfold nd. rewrite (axes_sizes_length _ _ _ Hf). reflexivity. }
+      rewrite Hlen.
+      destruct (norm_pos pos1 nd) as [p|] eqn:Enp; [|exact Hback].
+      destruct (norm_pos_same pos nd p (Zle_0_nat _) Enp) as [Hp _]. fold pos1 in Hp. subst p.
+      assert (Hc : check_field_axes (cons s1) (Some (insert_at pos1 1 sh)) (insert_at pos1 a ax) = true).
+      { apply check_field_some. apply axes_sizes_insert; assumption. }
+      rewrite Hc. cbn [negb]. apply Hend. intros x Hx. inversion Hx; subst. exact Hc.
+    + assert (Hc : check_field_axes (cons s1) None (insert_at pos1 a ax) = true).
+      { unfold check_field_axes in *. destruct (axes_sizes (cons s1) ax) as [szs|] eqn:E; [|discriminate].
+        rewrite (axes_sizes_insert _ _ _ pos1 a 1 E Ha). reflexivity. }
+      rewrite Hc. cbn [negb]. apply Hend. intros x Hx. inversion Hx; subst. exact Hc.
+  - destruct (fshape s1) as [sh|] eqn:Esh.
+    + destruct (norm_pos pos (Z.of_nat (length sh))); [|exact Hback].
+      cbn [negb]. apply Hend. intros; discriminate.
+    + cbn [negb]. apply Hend. intros; discriminate.
+Qed.
+
+(* ------------------------------------------------------------------ *)
+(* subspace                                                            *)
+(* ------------------------------------------------------------------ *)
+(* what resizing domain axes and slicing constructs do to the collection:
+   same types and keys, same coordinate references and cell methods *)
+Definition similar (t : ctype) (p p' : payload) : Prop :=
+  (kind_ok t p = true -> kind_ok t p' = true) /\
+  (kind_ok t p = true -> t = CoordRef \/ t = CellMethod -> p' = p).
+
+Record Rel (c c' : list centry) : Prop := mkRel {
+  rel_back : forall t k p', In (t, k, p') c' -> exists p, In (t, k, p) c /\ similar t p p';
+  rel_keep : forall t k, cget t k c <> None -> cget t k c' <> None;
+  rel_fun : functional c'
+}.
+
+Lemma similar_refl t p : similar t p p.
+Proof. split; auto. Qed.
+
+Lemma Rel_refl c : functional c -> Rel c c.
+Proof. intro F. constructor; auto. intros t k p H. exists p. split; [assumption|apply similar_refl]. Qed.
+
+Lemma Rel_trans c1 c2 c3 : Rel c1 c2 -> Rel c2 c3 -> Rel c1 c3.
+Proof.
+  intros [B1 K1 F1] [B2 K2 F2]. constructor; auto.
+  intros t k p3 H. destruct (B2 _ _ _ H) as [p2 [H2 [S2 S2']]]. destruct (B1 _ _ _ H2) as [p1 [H1 [S1 S1']]].
+  exists p1. split; [assumption|]. split; [auto|]. intros Hk Ht.
+  rewrite (S2' (S1 Hk) Ht). auto.
+Qed.
+
+Lemma functional_cset t k p c : functional c -> functional (cset t k p c).
+Proof.
+  intros F t0 k0 p0 H. apply In_cset in H as [Heq|[Hin Hne]].
+  - inversion Heq; subst. rewrite cget_cset, ctype_eqb_refl, String.eqb_refl. reflexivity.
+  - rewrite cget_cset. destruct (ctype_eqb t0 t && String.eqb k0 k) eqn:E; [|auto].
+    apply andb_true_iff in E as [E1 E2]. apply ctype_eqb_eq in E1. apply String.eqb_eq in E2. subst.
+    rewrite same_entry_refl in Hne. discriminate.
+Qed.
+
+Lemma Rel_cset_axis c k n old :
+  functional c -> cget DomainAxis k c = Some old -> Rel c (cset DomainAxis k (PAxis n) c).
+Proof.
+  intros F Ho. constructor.
+  - intros t k0 p' H. apply In_cset in H as [Heq|[Hin _]].
+    + inversion Heq; subst. exists old. split; [apply cget_In; assumption|].
+      split; [reflexivity|]. intros _ [H|H]; discriminate.
+    + exists p'. split; [assumption|apply similar_refl].
+  - intros t k0 H. rewrite cget_cset. destruct (ctype_eqb t DomainAxis && String.eqb k0 k); [discriminate|assumption].
+  - apply functional_cset; assumption.
+Qed.
+
+Lemma Rel_resize ups : forall c, functional c -> Rel c (resize_axes c ups).
+Proof.
+  induction ups as [|[a n] r IH]; intros c F; [apply Rel_refl; assumption|].
+  unfold resize_axes in *. cbn [fold_left fst snd].
+  destruct (cget DomainAxis a c) as [old|] eqn:E.
+  - pose proof (Rel_cset_axis c a n old F E) as R1.
+    eapply Rel_trans; [exact R1|]. apply IH. apply (rel_fun _ _ R1).
+  - apply IH; assumption.
+Qed.
+
+Lemma mapM_In {A B} (f : A -> option B) l l' y :
+  mapM f l = Some l' -> In y l' -> exists x, In x l /\ f x = Some y.
+Proof.
+  revert l'; induction l as [|x r IH]; intros l' H Hin; simpl in H.
+  - inversion H; subst. contradiction.
+  - destruct (f x) eqn:E; [|discriminate]. destruct (mapM f r) eqn:E2; [|discriminate].
+    inversion H; subst. destruct Hin as [->|Hin]; [exists x; split; [left; reflexivity|assumption]|].
+    destruct (IH _ eq_refl Hin) as [x0 [A1 A2]]. exists x0. split; [right; assumption|assumption].
+Qed.
+
+Lemma mapM_all {A B} (f : A -> option B) l l' x :
+  mapM f l = Some l' -> In x l -> exists y, f x = Some y /\ In y l'.
+Proof.
+  revert l'; induction l as [|a r IH]; intros l' H Hin; [contradiction|]. simpl in H.
+  destruct (f a) eqn:E; [|discriminate]. destruct (mapM f r) eqn:E2; [|discriminate].
+  inversion H; subst. destruct Hin as [->|Hin]; [exists b; split; [assumption|left; reflexivity]|].
+  destruct (IH _ eq_refl Hin) as [y [A1 A2]]. exists y. split; [assumption|right; assumption].
+Qed.
+
+Lemma cget_mapM (f : centry -> option centry) t k : forall c c',
+  mapM f c = Some c' ->
+  (forall e e', f e = Some e' -> ctyp e' = ctyp e /\ ckey e' = ckey e) ->
+  cget t k c' = match cget t k c with
+                | Some p => match f (t, k, p) with Some e' => Some (snd e') | None => None end
+                | None => None end.
+Proof.
+  induction c as [|e r IH]; intros c' H Hk; simpl in H.
+  - inversion H; reflexivity.
+  - destruct (f e) as [e'|] eqn:E; [|discriminate]. destruct (mapM f r) as [r'|] eqn:E2; [|discriminate].
+    inversion H; subst. cbn [cget].
+    assert (Hs : same_entry t k e' = same_entry t k e).
+    { destruct (Hk _ _ E) as [A B]. unfold same_entry, ctyp, ckey in *. rewrite A, B. reflexivity. }
+    rewrite Hs. destruct (same_entry t k e) eqn:Es.
+    + apply same_entry_true in Es as [E1 E2']. destruct e as [[a b] q]; simpl in *; subst. rewrite E. reflexivity.
+    + apply IH; auto.
+Qed.
+
+Lemma Rel_mapM (f : centry -> option centry) c c' :
+  functional c -> mapM f c = Some c' ->
+  (forall t k p e', f (t, k, p) = Some e' -> exists p', e' = (t, k, p') /\ similar t p p') ->
+  Rel c c'.
+Proof.
+  intros F H Hf.
+  assert (Hk : forall e e', f e = Some e' -> ctyp e' = ctyp e /\ ckey e' = ckey e).
+  { intros [[t k] p] e' E. destruct (Hf _ _ _ _ E) as [p' [-> _]]. auto. }
+  constructor.
+  - intros t k p' Hin. destruct (mapM_In f c c' _ H Hin) as [[[t0 k0] p] [A B]].
+    destruct (Hf _ _ _ _ B) as [q [Heq S]]. inversion Heq; subst. eauto.
+  - intros t k Hn. rewrite (cget_mapM f t k c c' H Hk).
+    destruct (cget t k c) as [p|] eqn:E; [|congruence].
+    destruct (mapM_all f c c' _ H (cget_In _ _ _ _ E)) as [y [A _]]. rewrite A. discriminate.
+  - intros t k p' Hin. destruct (mapM_In f c c' _ H Hin) as [[[t0 k0] p] [A B]].
+    destruct (Hf _ _ _ _ B) as [q [Heq S]]. inversion Heq; subst.
+    rewrite (cget_mapM f _ _ c c' H Hk), (F _ _ _ A), B. reflexivity.
+Qed.
+
+Lemma sub_entry_similar fax newsz cax t k p e' :
+  sub_entry fax newsz cax (t, k, p) = Some e' -> exists p', e' = (t, k, p') /\ similar t p p'.
+Proof.
+  unfold sub_entry. destruct p as [n|sh hd bnd|cs ancs|axs];
+    try (intro H; inversion H; subst; eexists; split; [reflexivity|apply similar_refl]).
+  destruct (assoc k cax) as [ca|]; [|intro H; inversion H; subst; eexists; split; [reflexivity|apply similar_refl]].
+  destruct (negb (existsb (fun a => memb a fax) ca));
+    [intro H; inversion H; subst; eexists; split; [reflexivity|apply similar_refl]|].
+  destruct sh as [shp|]; [|discriminate].
+  destruct (negb (Nat.eqb (length shp) (length ca))); [discriminate|].
+  intro H; inversion H; subst. eexists; split; [reflexivity|]. split; [auto|].
+  intros Hk [->| ->]; discriminate.
+Qed.
+
+Lemma assoc_map_first (l : list centry) k :
+  match assoc k (map (fun e => (snd (fst e), snd e)) l) with
+  | Some p => exists t, In (t, k, p) l
+  | None => forall t p, ~ In (t, k, p) l
+  end.
+Proof.
+  induction l as [|[[t0 k0] p0] r IH]; simpl; [intros t p []|].
+  destruct (String.eqb k k0) eqn:E.
+  - apply String.eqb_eq in E. subst. eauto.
+  - destruct (assoc k (map (fun e => (snd (fst e), snd e)) r)) as [p|].
+    + destruct IH as [t Ht]. eauto.
+    + intros t p [Heq|Hin]; [inversion Heq; subst; rewrite String.eqb_refl in E; discriminate|].
+      eapply IH; eauto.
+Qed.
+
+Lemma inv_rel s c2 fs fa :
+  Inv s -> Rel (cons s) c2 -> all_fit c2 (caxes s) = true ->
+  (forall ax, fa = Some ax -> check_field_axes c2 fs ax = true) ->
+  Inv (mkS c2 (ctys s) (caxes s) fs fa).
+Proof.
+  intros I [B K F] Hfit Hf. constructor; cbn [cons ctys caxes fshape faxes].
+  - intros t k p' Hin. destruct (B _ _ _ Hin) as [p [Hp [S _]]].
+    destruct (inv_held s I t k p Hp) as [A [Hk _]]. splits; auto.
+  - intros k t H. destruct (inv_typed s I k t H) as [p Hp].
+    destruct (cget t k c2) eqn:E; [eauto|]. exfalso. apply (K t k); congruence.
+  - intros k axs H. destruct (inv_axes s I k axs H) as [t [p [A [Harr [C D]]]]].
+    destruct (cget t k c2) as [p'|] eqn:E; [|exfalso; apply (K t k); congruence].
+    exists t, p'. splits; auto.
+    unfold all_fit in Hfit. rewrite forallb_forall in Hfit. specialize (Hfit (k, axs) (assoc_In _ _ _ H)).
+    cbn [fst snd] in Hfit. pose proof (assoc_map_first c2 k) as Hm.
+    destruct (assoc k (map (fun e => (snd (fst e), snd e)) c2)) as [p''|].
+    + destruct Hm as [t'' Hin]. destruct (B _ _ _ Hin) as [q [Hq _]].
+      destruct (inv_held s I t'' k q Hq) as [A' _]. assert (t'' = t) by congruence. subst.
+      rewrite (F _ _ _ Hin) in E. inversion E; subst. exact Hfit.
+    + exfalso. apply (Hm t p'). apply cget_In; assumption.
+  - exact Hf.
+  - intros rk cs ancs Hin. destruct (B _ _ _ Hin) as [p [Hp [S1 S2]]].
+    destruct (inv_held s I _ _ _ Hp) as [_ [Hk _]]. rewrite (S2 Hk (or_introl eq_refl)) in Hin.
+    assert (p = PRef cs ancs) by (symmetry; apply (S2 Hk); auto). subst.
+    apply (inv_refs s I rk cs ancs Hp).
+  - intros ck axs Hin a Ha. destruct (B _ _ _ Hin) as [p [Hp [S1 S2]]].
+    destruct (inv_held s I _ _ _ Hp) as [_ [Hk _]].
+    assert (p = PCm axs) by (symmetry; apply (S2 Hk); auto). subst.
+    pose proof (inv_cms s I ck axs Hp a Ha) as Hs. unfold axis_size in *.
+    destruct (cget DomainAxis a (cons s)) as [q|] eqn:E; [|congruence].
+    destruct (cget DomainAxis a c2) as [q'|] eqn:E'; [|exfalso; apply (K DomainAxis a); congruence].
+    apply cget_In in E'. destruct (B _ _ _ E') as [q0 [Hq0 [S _]]].
+    destruct (inv_held s I _ _ _ Hq0) as [_ [Hk0 _]]. destruct (kind_ok_axis q' (S Hk0)) as [n ->]. discriminate.
+Qed.
+
+Lemma subspace_inv sel s : Inv s -> Inv (fst (subspace sel s)).
+Proof.
+  intros I. unfold subspace.
+  destruct (negb (copyable s)); [exact I|].
+  destruct (fshape s) as [sh|]; [|exact I].
+  destruct (negb (Nat.eqb (length sel) (length sh))); [exact I|].
+  destruct (faxes s) as [fax|]; [|exact I].
+  destruct (mapM (fun x => x) sel) as [newsz|]; [|exact I].
+  destruct (existsb (Z.eqb 0) newsz); [exact I|].
+  destruct (negb (Nat.eqb (length fax) (length sh))); [exact I|].
+  destruct (axes_sizes (cons s) fax); [|exact I].
+  cbv zeta.
+  destruct (negb (check_field_axes (resize_axes (cons s) (zip fax newsz)) (Some newsz) fax)); [exact I|].
+  destruct (mapM (sub_entry fax newsz (caxes s)) (resize_axes (cons s) (zip fax newsz))) as [c2|] eqn:Em; [|exact I].
+  destruct (all_fit c2 (caxes s) && check_field_axes c2 (Some newsz) fax) eqn:Ec; [|exact I].
+  apply andb_true_iff in Ec as [Ec1 Ec2]. cbn [fst].
+  apply inv_rel; auto.
+  - pose proof (Rel_resize (zip fax newsz) (cons s) (inv_functional s I)) as R1.
+    eapply Rel_trans; [exact R1|].
+    eapply Rel_mapM; [apply (rel_fun _ _ R1)|exact Em|].
+    intros; eapply sub_entry_similar; eauto.
+  - intros ax Hax. inversion Hax; subst. exact Ec2.
+Qed.
+
+(* ------------------------------------------------------------------ *)
+(* convert                                                             *)
+(* ------------------------------------------------------------------ *)
+Definition kt_of (l : list centry) : list (key * ctype) := map (fun e => (snd (fst e), fst (fst e))) l.
+
+Lemma assoc_kt_backed tys l t k p :
+  (forall t0 k0 p0, In (t0, k0, p0) l -> assoc k0 tys = Some t0) ->
+  In (t, k, p) l -> assoc k (kt_of l) = Some t.
+Proof.
+  intros Hb Hin. induction l as [|[[t0 k0] p0] r IH]; [contradiction|].
+  cbn [kt_of map assoc fst snd]. destruct (String.eqb k k0) eqn:E.
+  - apply String.eqb_eq in E. subst k0.
+    pose proof (Hb t0 k p0 (or_introl eq_refl)) as H1. pose proof (Hb t k p Hin) as H2. congruence.
+  - destruct Hin as [Heq|Hin]; [inversion Heq; subst; rewrite String.eqb_refl in E; discriminate|].
+    apply IH; [|assumption]. intros t1 k1 p1 H1; apply (Hb t1 k1 p1); right; assumption.
+Qed.
+
+Lemma assoc_kt_In l k t : assoc k (kt_of l) = Some t -> exists p, In (t, k, p) l.
+Proof.
+  intro H. apply assoc_In in H. apply in_map_iff in H as [[[t0 k0] p0] [Heq Hin]].
+  inversion Heq; subst. eauto.
+Qed.
+
+Lemma assoc_filter_key {A} (P : key -> bool) (l : list (key * A)) k :
+  assoc k (filter (fun ka => P (fst ka)) l) = if P k then assoc k l else None.
+Proof.
+  induction l as [|[a v] r IH]; simpl; [destruct (P k); reflexivity|].
+  destruct (P a) eqn:Ea; simpl.
+  - destruct (String.eqb k a) eqn:E; [apply String.eqb_eq in E; subst; rewrite Ea; reflexivity|exact IH].
+  - destruct (String.eqb k a) eqn:E; [|exact IH].
+    apply String.eqb_eq in E. subst. rewrite IH, Ea. reflexivity.
+Qed.
+
+Lemma subset_In l1 l2 a : subset l1 l2 = true -> In a l1 -> In a l2.
+Proof.
+  unfold subset. rewrite forallb_forall. intros H Hin. apply memb_true. apply H; assumption.
+Qed.
+
+Lemma dedup_In e l : In e (dedup_entries l) -> In e l.
+Proof.
+  induction l as [|x r IH]; simpl; [auto|].
+  destruct (existsb (same_entry (fst (fst x)) (snd (fst x))) r); [auto|].
+  intros [->|H]; auto.
+Qed.
+
+Lemma dedup_keeps l : forall e, In e l ->
+  exists e', In e' (dedup_entries l) /\ ctyp e' = ctyp e /\ ckey e' = ckey e.
+Proof.
+  induction l as [|x r IH]; intros e Hin; [contradiction|]. destruct Hin as [->|Hin]; simpl.
+  - destruct (existsb (same_entry (fst (fst e)) (snd (fst e))) r) eqn:E.
+    + apply existsb_exists in E as [y [Hy Hs]]. apply same_entry_true in Hs as [A B].
+      destruct (IH y Hy) as [e' [H1 [H2 H3]]]. exists e'. unfold ctyp, ckey in *. splits; auto; congruence.
+    + exists e. splits; auto. left; reflexivity.
+  - destruct (IH e Hin) as [e' [H1 H23]].
+    destruct (existsb (same_entry (fst (fst x)) (snd (fst x))) r); exists e'; split; auto. right; assumption.
+Qed.
+
+Lemma anc_scan_true cax dax ancs : anc_scan cax dax ancs = Some true ->
+  forall ta, In ta ancs -> exists a aax, snd ta = Some a /\ assoc a cax = Some aax /\ subset aax dax = true.
+Proof.
+  unfold anc_scan.
+  assert (G : forall st, fold_left (fun (st : option bool) ta =>
+               match st with
+               | Some true =>
+                   match snd ta with
+                   | Some a => match assoc a cax with
+                               | Some aax => Some (subset aax dax)
+                               | None => None end
+                   | None => None end
+               | other => other end) ancs st = Some true ->
+             st = Some true /\
+             forall ta, In ta ancs -> exists a aax, snd ta = Some a /\ assoc a cax = Some aax /\ subset aax dax = true).
+  { induction ancs as [|x r IH]; intros st H; simpl in H; [split; [assumption|intros ta []]|].
+    destruct (IH _ H) as [Hst Hall].
+    destruct st as [[|]|]; try discriminate. split; [reflexivity|]. cbv beta iota in Hst.
+    match type of Hst with match ?y with _ => _ end = _ => destruct y as [a|] eqn:Ex end; [|discriminate].
+    match type of Hst with match ?y with _ => _ end = _ => destruct y as [aax|] eqn:Ea end; [|discriminate].
+    injection Hst as Hs.
+    intros ta [<-|Hin]; [exists a, aax; splits; auto|apply Hall; assumption]. }
+  intro H. apply (G _ H).
+Qed.
+
+Lemma zip_mapM {A B} (g : A -> option B) cs : forall ys c y,
+  mapM g cs = Some ys -> In (c, y) (zip cs ys) -> In c cs /\ g c = Some y.
+Proof.
+  induction cs as [|x r IH]; intros ys c y H Hin; simpl in H.
+  - inversion H; subst. contradiction.
+  - destruct (g x) eqn:E; [|discriminate]. destruct (mapM g r) eqn:E2; [|discriminate].
+    inversion H; subst. simpl in Hin. destruct Hin as [Heq|Hin].
+    + inversion Heq; subst. split; [left; reflexivity|assumption].
+    + destruct (IH _ _ _ eq_refl Hin). split; [right; assumption|assumption].
+Qed.
+
+(* where a construct of the converted field comes from *)
+Definition conv_member (s : cstate) (dax : list key) (e : centry) : Prop :=
+  (exists a n, e = (DomainAxis, a, PAxis n) /\ In a dax /\ axis_size (cons s) a = Some n) \/
+  (In e (cons s) /\ conv_keep s dax e = true) \/
+  (exists rk cs ancs caxs,
+     In (CoordRef, rk, PRef cs ancs) (cons s) /\
+     mapM (fun c => assoc c (caxes s)) cs = Some caxs /\
+     anc_scan (caxes s) dax ancs = Some true /\
+     (e = (CoordRef, rk, PRef (map fst (filter (fun ca => subset (snd ca) dax) (zip cs caxs))) ancs) \/
+      exists term a pa, In (term, Some a) ancs /\ cget DomainAnc a (cons s) = Some pa /\ e = (DomainAnc, a, pa))).
+
+Lemma conv_ref_member s dax e0 l e :
+  In e0 (cons s) -> conv_ref s dax e0 = Some l -> In e l -> conv_member s dax e.
+Proof.
+  intros Hin0 H Hin. unfold conv_ref in H.
+  destruct e0 as [[[] rk] p]; try (inversion H; subst; contradiction).
+  destruct p as [|?|cs ancs|]; try (inversion H; subst; contradiction).
+  destruct (mapM (fun c => assoc c (caxes s)) cs) as [caxs|] eqn:Em; [|discriminate].
+  destruct (map fst (filter (fun ca => subset (snd ca) dax) (zip cs caxs))) as [|c0 cr] eqn:En;
+    [inversion H; subst; contradiction|].
+  destruct (anc_scan (caxes s) dax ancs) as [[|]|] eqn:Es; try discriminate;
+    [|inversion H; subst; contradiction].
+  inversion H; subst. right; right. exists rk, cs, ancs, caxs. splits; auto.
+  destruct Hin as [<-|Hin]; [left; rewrite En; reflexivity|right].
+  apply in_flat_map in Hin as [[term oa] [Hta Hin]]. cbn [snd] in Hin.
+  destruct oa as [a|]; [|contradiction].
+  destruct (cget DomainAnc a (cons s)) as [pa|] eqn:Ec; [|contradiction].
+  destruct Hin as [<-|[]]. exists term, a, pa. auto.
+Qed.
+
+(* the payload of a member is determined by its type and key *)
+Definition conv_F (s : cstate) (dax : list key) (t : ctype) (p0 : payload) : payload :=
+  match t, p0 with
+  | CoordRef, PRef cs ancs =>
+      match mapM (fun c => assoc c (caxes s)) cs with
+      | Some caxs => PRef (map fst (filter (fun ca => subset (snd ca) dax) (zip cs caxs))) ancs
+      | None => p0 end
+  | _, _ => p0
+  end.
+
+Lemma conv_member_origin s dax t k p :
+  Inv s -> conv_member s dax (t, k, p) ->
+  exists p0, cget t k (cons s) = Some p0 /\ p = conv_F s dax t p0.
+Proof.
+  intros I [[a [n [Heq [Ha Hs]]]]|[[Hin Hk]|[rk [cs [ancs [caxs [Hin [Hm [Hs [Heq|[term [a [pa [Ha [Hc Heq]]]]]]]]]]]]]]].
+  - inversion Heq; subst. unfold axis_size in Hs.
+    destruct (cget DomainAxis a (cons s)) as [[m| | |]|] eqn:E; try discriminate.
+    inversion Hs; subst. exists (PAxis n). auto.
+  - exists p. split; [apply (inv_functional s I); assumption|].
+    unfold conv_keep in Hk. cbn [fst snd] in Hk. destruct t; try discriminate; reflexivity.
+  - inversion Heq; subst. exists (PRef cs ancs). split; [apply (inv_functional s I); assumption|].
+    cbn [conv_F]. rewrite Hm. reflexivity.
+  - inversion Heq; subst. exists pa. auto.
+Qed.
+
+Lemma conv_member_axes s dax t k p axs :
+  Inv s -> conv_member s dax (t, k, p) -> t <> CoordRef -> t <> DomainAxis ->
+  assoc k (caxes s) = Some axs -> subset axs dax = true.
+Proof.
+  intros I [[a [n [Heq _]]]|[[Hin Hk]|[rk [cs [ancs [caxs [Hin [Hm [Hs [Heq|[term [a [pa [Ha [Hc Heq]]]]]]]]]]]]]]] H1 H2 Hx.
+  - inversion Heq; subst. contradiction.
+  - unfold conv_keep in Hk. cbn [fst snd] in Hk. rewrite Hx in Hk. apply andb_true_iff in Hk as [_ Hk]. exact Hk.
+  - inversion Heq; subst. contradiction.
+  - inversion Heq; subst. destruct (anc_scan_true _ _ _ Hs _ Ha) as [a' [aax [E1 [E2 E3]]]].
+    cbn [snd] in E1. inversion E1; subst. congruence.
+Qed.
+
+Lemma convert_inv k full s : Inv s -> Inv (fst (convert k full s)).
+Proof.
+  intros I. unfold convert.
+  destruct (assoc k (ctys s)) as [t|]; [|exact I].
+  destruct (negb (is_array t)); [exact I|].
+  destruct (cget t k (cons s)) as [p|]; [|exact I].
+  destruct (negb (copyable_entry (t, k, p))); [exact I|].
+  destruct (phasdata p); [|exact I].
+  destruct (pshape p) as [sh|]; [|exact I].
+  destruct (assoc k (caxes s)) as [dax|].
+  2:{ destruct (negb full); [exact inv_init|]. cbv zeta.
+      repeat match goal with |- context [if ?c then _ else _] => destruct c end;
+        first [exact I|exact inv_init]. }
+  destruct (axes_sizes (cons s) dax) as [szs|] eqn:Esz; [|exact I].
+  destruct (negb (zlist_eqb sh szs)) eqn:Esh; [exact I|].
+  apply negb_false_iff, zlist_eqb_eq in Esh. subst szs.
+  cbv zeta.
+  set (axes_c := map (fun a => (DomainAxis, a, PAxis (match axis_size (cons s) a with
+                                                     | Some n => n | None => 0 end)))
+                     (nodup string_dec dax)).
+  assert (Hax : forall e, In e axes_c -> conv_member s dax e).
+  { intros e He. unfold axes_c in He. apply in_map_iff in He as [a [<- Ha]]. apply nodup_In in Ha.
+    destruct (axes_sizes_some_in _ _ _ _ Esz Ha) as [n Hn]. left. exists a, n. rewrite Hn. auto. }
+  assert (Haxin : forall a, In a dax -> exists n, axis_size (cons s) a = Some n /\ In (DomainAxis, a, PAxis n) axes_c).
+  { intros a Ha. destruct (axes_sizes_some_in _ _ _ _ Esz Ha) as [n Hn]. exists n. split; [assumption|].
+    unfold axes_c. apply in_map_iff. exists a. rewrite Hn. split; [reflexivity|apply nodup_In; assumption]. }
+  (* everything follows from: the constructs of the new field are members,
+     and the members that must be there are there *)
+  assert (Hmain : forall allc cax',
+            (forall e, In e allc -> conv_member s dax e) ->
+            (forall e, In e axes_c -> In e allc) ->
+            (forall k0 axs, assoc k0 cax' = Some axs ->
+               assoc k0 (caxes s) = Some axs /\
+               exists t0 p0, In (t0, k0, p0) allc /\ t0 <> CoordRef /\ t0 <> DomainAxis) ->
+            (forall rk cs ancs caxs, In (CoordRef, rk, PRef cs ancs) (cons s) ->
+               In (CoordRef, rk, PRef (map fst (filter (fun ca => subset (snd ca) dax) (zip cs caxs))) ancs) allc ->
+               mapM (fun c => assoc c (caxes s)) cs = Some caxs ->
+               (forall e, In e (cons s) -> conv_keep s dax e = true -> In e allc) /\
+               (forall term a pa, In (term, Some a) ancs -> cget DomainAnc a (cons s) = Some pa ->
+                                  exists pa', In (DomainAnc, a, pa') allc)) ->
+            Inv (mkS allc (kt_of allc) cax' (Some sh) (Some dax))).
+  { intros allc cax' Hmem Hhasax Hcax Hrefs.
+    assert (Horig : forall t0 k0 p0, In (t0, k0, p0) allc ->
+              exists q, cget t0 k0 (cons s) = Some q /\ p0 = conv_F s dax t0 q).
+    { intros. apply conv_member_origin; auto. }
+    assert (Hback : forall t0 k0 p0, In (t0, k0, p0) allc -> assoc k0 (ctys s) = Some t0).
+    { intros t0 k0 p0 H. destruct (Horig _ _ _ H) as [q [Hq _]]. apply cget_In in Hq.
+      apply (inv_held s I _ _ _ Hq). }
+    assert (Hfun : functional allc).
+    { intros t0 k0 p0 H. destruct (cget t0 k0 allc) as [p1|] eqn:E; [|exfalso; eapply In_cget_some; eauto].
+      pose proof (cget_In _ _ _ _ E) as H1.
+      destruct (Horig _ _ _ H) as [q [Hq ->]]. destruct (Horig _ _ _ H1) as [q1 [Hq1 ->]]. congruence. }
+    assert (Hsz : forall a, In a dax -> axis_size allc a = axis_size (cons s) a).
+    { intros a Ha. destruct (Haxin a Ha) as [n [Hn Hin]]. unfold axis_size at 1.
+      rewrite (Hfun _ _ _ (Hhasax _ Hin)). congruence. }
+    constructor; cbn [cons ctys caxes fshape faxes].
+    - intros t0 k0 p0 H. splits; [eapply assoc_kt_backed; eauto|
+                                  |apply Hfun; assumption].
+      destruct (Horig _ _ _ H) as [q [Hq ->]]. apply cget_In in Hq.
+      destruct (inv_held s I _ _ _ Hq) as [_ [Hk _]].
+      unfold conv_F. destruct t0; try exact Hk. destruct q; try exact Hk.
+      destruct (mapM (fun c => assoc c (caxes s)) coords); exact Hk.
+    - intros k0 t0 H. destruct (assoc_kt_In _ _ _ H) as [p0 Hin]. rewrite (Hfun _ _ _ Hin). eauto.
+    - intros k0 axs H. destruct (Hcax _ _ H) as [Hold [t0 [p0 [Hin [Hn1 Hn2]]]]].
+      destruct (inv_axes s I k0 axs Hold) as [t1 [p1 [A [B [C D]]]]].
+      assert (t0 = t1) by (pose proof (Hback _ _ _ Hin); congruence). subst t1.
+      destruct (Horig _ _ _ Hin) as [q [Hq Hp0]]. assert (q = p1) by congruence. subst q.
+      assert (Hpp : conv_F s dax t0 p1 = p1) by (unfold conv_F; destruct t0; try reflexivity; contradiction).
+      rewrite Hpp in Hp0. subst p0. exists t0, p1.
+      splits; [eapply assoc_kt_backed; eauto | exact B | apply Hfun; exact Hin | ].
+      rewrite <- D. apply check_axes_ext. intros a Ha. apply Hsz.
+      eapply subset_In; [|exact Ha]. eapply conv_member_axes; eauto.
+    - intros ax Hx. inversion Hx; subst. apply check_field_some.
+      rewrite <- Esz. apply axes_sizes_ext. exact Hsz.
+    - intros rk cs' ancs' Hin.
+      destruct (Hmem _ Hin) as [Hm1|[Hm2|Hm3]];
+        [destruct Hm1 as [a [n [Heq _]]]; discriminate|destruct Hm2 as [_ Hk]; cbn in Hk; discriminate|].
+      destruct Hm3 as [rk0 [cs [ancs [caxs [Hin0 [Hm [Hs Hor]]]]]]].
+      destruct Hor as [Heq|[term [a [pa [_ [_ Heq]]]]]]; [|discriminate].
+      injection Heq as <- -> ->.
+      destruct (Hrefs _ _ _ _ Hin0 Hin Hm) as [Hkept Hdas].
+      destruct (inv_refs s I rk cs ancs Hin0) as [R1 R2]. split.
+      + intros c Hc. apply in_map_iff in Hc as [[c' cax_c] [Heq Hc]]. cbn in Heq. subst c'.
+        apply filter_In in Hc as [Hz Hsub]. cbn [snd] in Hsub.
+        destruct (zip_mapM _ _ _ _ _ Hm Hz) as [Hcin Hca].
+        destruct (R1 c Hcin) as [tc [Htc Hok]].
+        destruct (inv_typed s I c tc Htc) as [pc Hpc]. apply cget_In in Hpc.
+        exists tc. split; [|assumption]. eapply assoc_kt_backed; [exact Hback|].
+        apply Hkept; [exact Hpc|]. unfold conv_keep. cbn [fst snd]. rewrite Hca, Hsub.
+        destruct tc; try discriminate; reflexivity.
+      + intros term a Ha. destruct (R2 term a Ha) as [ta [Hta Hok]].
+        assert (ta = DomainAnc) by (destruct ta; try discriminate; reflexivity). subst ta.
+        destruct (inv_typed s I a DomainAnc Hta) as [pa Hpa].
+        destruct (Hdas term a pa Ha Hpa) as [pa' Hin']. exists DomainAnc. split; [|reflexivity].
+        eapply assoc_kt_backed; eauto.
+    - intros ck axs Hin.
+      destruct (Hmem _ Hin) as [Hm1|[Hm2|Hm3]];
+        [destruct Hm1 as [a [n [Heq _]]]; discriminate|destruct Hm2 as [_ Hk]; cbn in Hk; discriminate|].
+      destruct Hm3 as [rk0 [cs [ancs [caxs [_ [_ [_ Hor]]]]]]].
+      destruct Hor as [Heq|[term [a [pa [_ [_ Heq]]]]]]; discriminate. }
+  destruct (negb full).
+  - (* only the domain axes *)
+    cbn [fst]. apply Hmain; auto.
+    + intros k0 axs H; discriminate.
+    + intros rk cs ancs caxs _ Hin.
+      exfalso. unfold axes_c in Hin. apply in_map_iff in Hin as [a [Heq _]]. discriminate.
+  - set (kept := filter (conv_keep s dax) (cons s)).
+    destruct (negb (forallb copyable_entry kept)); [exact I|].
+    destruct (mapM (conv_ref s dax) (cons s)) as [contrib|] eqn:Em; [|exact I].
+    cbn [fst]. apply Hmain.
+    + intros e He. apply in_app_or in He as [He|He]; [auto|].
+      apply in_app_or in He as [He|He].
+      * unfold kept in He. apply filter_In in He. right; left. exact He.
+      * apply dedup_In in He. apply in_concat in He as [l [Hl He]].
+        destruct (mapM_In _ _ _ _ Em Hl) as [e0 [He0 Hc]]. eapply conv_ref_member; eauto.
+    + intros e He. apply in_or_app; left; assumption.
+    + intros k0 axs H. rewrite (assoc_filter_key (fun x => memb x _)) in H.
+      match type of H with (if memb k0 ?ks then _ else _) = _ => destruct (memb k0 ks) eqn:Ek end; [|discriminate].
+      split; [assumption|]. apply memb_true in Ek. apply in_map_iff in Ek as [[[t0 k1] p0] [Heq Hin]].
+      cbn in Heq. subst k1. apply filter_In in Hin as [Hin Ht]. cbn [fst] in Ht.
+      exists t0, p0. split; [assumption|]. split; intro; subst; discriminate.
+    + intros rk cs ancs caxs Hin0 Hin Hm. split.
+      * intros e He Hk. apply in_or_app; right. apply in_or_app; left. unfold kept. apply filter_In; auto.
+      * intros term a pa Ha Hpa.
+        (* the reference was kept, so its ancillaries were contributed *)
+        apply in_app_or in Hin as [Hin|Hin];
+          [exfalso; unfold axes_c in Hin; apply in_map_iff in Hin as [? [Heq _]]; discriminate|].
+        apply in_app_or in Hin as [Hin|Hin];
+          [exfalso; unfold kept in Hin; apply filter_In in Hin as [_ Hk]; discriminate|].
+        apply dedup_In in Hin. apply in_concat in Hin as [l [Hl Hin]].
+        destruct (mapM_In _ _ _ _ Em Hl) as [e0 [He0 Hc]].
+        assert (He0' : e0 = (CoordRef, rk, PRef cs ancs)).
+        { (* e0 is the reference held under rk *)
+          unfold conv_ref in Hc. destruct e0 as [[[] rk1] p1]; try (inversion Hc; subst; contradiction).
+          destruct p1 as [|?|cs1 ancs1|]; try (inversion Hc; subst; contradiction).
+          destruct (mapM (fun c => assoc c (caxes s)) cs1) as [caxs1|]; [|discriminate].
+          destruct (map fst (filter (fun ca => subset (snd ca) dax) (zip cs1 caxs1))); [inversion Hc; subst; contradiction|].
+          destruct (anc_scan (caxes s) dax ancs1) as [[|]|]; try discriminate; [|inversion Hc; subst; contradiction].
+          inversion Hc; subst l. destruct Hin as [Heq1|Hin].
+          - inversion Heq1; subst.
+            pose proof (inv_functional s I _ _ _ He0) as F1. pose proof (inv_functional s I _ _ _ Hin0) as F2.
+            congruence.
+          - exfalso. apply in_flat_map in Hin as [[tm oa] [_ Hin]]. cbn [snd] in Hin.
+            destruct oa as [a0|]; [|contradiction].
+            destruct (cget DomainAnc a0 (cons s)); [|contradiction]. destruct Hin as [Heq1|[]]. discriminate. }
+        subst e0.
+        assert (Hda : In (DomainAnc, a, pa) l).
+        { unfold conv_ref in Hc. rewrite Hm in Hc.
+          destruct (map fst (filter (fun ca => subset (snd ca) dax) (zip cs caxs))); [inversion Hc; subst; contradiction|].
+          destruct (anc_scan (caxes s) dax ancs) as [[|]|]; try discriminate; [|inversion Hc; subst; contradiction].
+          inversion Hc; subst l. right. apply in_flat_map. exists (term, Some a). split; [assumption|].
+          cbn [snd]. rewrite Hpa. left; reflexivity. }
+        assert (Hcc : In (DomainAnc, a, pa) (concat contrib)) by (apply in_concat; eauto).
+        destruct (dedup_keeps _ _ Hcc) as [[[t' k'] p'] [Hd [Ht Hk]]]. cbn in Ht, Hk. subst.
+        exists p'. apply in_or_app; right. apply in_or_app; right. exact Hd.
+Qed.
+
+(* ------------------------------------------------------------------ *)
+(* every step, every history                                           *)
+(* ------------------------------------------------------------------ *)
+(* What is asked of the caller: an inserted coordinate reference names
+   coordinate constructs (as coordinates) and domain ancillary constructs (as
+   terms) that exist at the time of the call, an inserted cell method names
+   existing domain axes (payload_ok): the container does not validate caller
+   data.  Nothing else: every operation, with every argument choice. *)
+Definition op_ok (s : cstate) (o : op) : Prop :=
+  match o with
+  | SetConstruct _ _ p _ _ => payload_ok s p
+  | _ => True
+  end.
+
+Lemma step_inv s o : Inv s -> op_ok s o -> Inv (fst (step s o)).
+Proof.
+  intros I Hok. destruct o; cbn [step op_ok] in *.
+  - apply set_construct_inv; assumption.
+  - apply del_construct_inv; assumption.
+  - apply set_data_inv; assumption.
+  - apply del_data_inv; assumption.
+  - apply set_data_axes_inv; assumption.
+  - apply del_data_axes_inv; assumption.
+  - destruct (copyable s); exact I.
+  - apply subspace_inv; assumption.
+  - apply squeeze_inv; assumption.
+  - apply transpose_inv_full; assumption.
+  - apply insert_dimension_inv_full; assumption.
+  - apply convert_inv; assumption.
+Qed.
+
+Fixpoint ops_ok (s : cstate) (ops : list op) : Prop :=
+  match ops with
+  | [] => True
+  | o :: r => op_ok s o /\ ops_ok (fst (step s o)) r
+  end.
+
+Lemma run_inv_from ops : forall s, Inv s -> ops_ok s ops ->
+  Inv (fold_left (fun s o => fst (step s o)) ops s).
+Proof.
+  induction ops as [|o r IH]; intros s I H; simpl in *; [exact I|].
+  destruct H as [H1 H2]. apply IH; [apply step_inv; assumption|assumption].
+Qed.
+
+Lemma run_inv ops : ops_ok init ops -> Inv (run ops).
+Proof. intro H. apply run_inv_from; [apply inv_init|assumption]. Qed.
+
+(* every state along the way as well *)
+Lemma run_inv_prefix ops n : ops_ok init ops -> Inv (run (firstn n ops)).
+Proof.
+  intro H. apply run_inv.
+  revert n H. generalize init. induction ops as [|o r IH]; intros s n H; destruct n; simpl in *; auto.
+  destruct H; split; auto.
+Qed.
+
+(* clause (i): a key belongs to one construct of one type *)
+Lemma key_unique s t t' k p p' :
+  Inv s -> In (t, k, p) (cons s) -> In (t', k, p') (cons s) -> t = t' /\ p = p'.
+Proof.
+  intros I H1 H2. destruct (inv_held s I _ _ _ H1) as [A [_ B]].
+  destruct (inv_held s I _ _ _ H2) as [A' [_ B']].
+  assert (t = t') by congruence. subst. split; [reflexivity|congruence].
+Qed.
+
+(* clause (ii) spelled out *)
+Lemma shapes_match s k axs :
+  Inv s -> assoc k (caxes s) = Some axs ->
+  exists t p, In (t, k, p) (cons s) /\ is_array t = true /\
+    (exists szs, axes_sizes (cons s) axs = Some szs /\
+                 forall sh, pshape p = Some sh -> sh = szs).
+Proof.
+  intros I H. destruct (inv_axes s I k axs H) as [t [p [H1 [H2 [H3 H4]]]]].
+  exists t, p. splits; auto. { apply cget_In; assumption. }
+  unfold check_axes in H4. destruct (axes_sizes (cons s) axs) as [szs|]; [|discriminate].
+  exists szs. split; [reflexivity|]. intros sh Hs. rewrite Hs in H4. apply zlist_eqb_eq; assumption.
+Qed.
+
+(* clause (iii) spelled out *)
+Lemma field_matches s ax sh :
+  Inv s -> faxes s = Some ax -> fshape s = Some sh -> axes_sizes (cons s) ax = Some sh.
+Proof.
+  intros I H1 H2. pose proof (inv_field s I ax H1) as H. rewrite H2 in H.
+  apply check_field_some; assumption.
+Qed.
+
+(* clause (v): the domain view shows exactly the constructs of the types it
+   does not ignore, and they are the field's own *)
+Lemma domain_view_spec s e :
+  In e (domain_view s) <-> In e (cons s) /\ ignored (fst (fst e)) = false.
+Proof. unfold domain_view. rewrite filter_In, negb_true_iff. tauto. Qed.
+
+(* a rejected insertion, data or data-axes call changes nothing *)
+Lemma rejected_unchanged s o e :
+  match o with
+  | SetConstruct _ _ _ _ _ | SetData _ _ | DelData | SetDataAxes _ _ _ | DelDataAxes _ _ | Copy => True
+  | _ => False
+  end ->
+  snd (step s o) = Rejected e -> fst (step s o) = s.
+Proof.
+  destruct o; intro H; try contradiction; cbn [step].
+  - unfold set_construct.
+    repeat match goal with
+           | |- context [if ?c then _ else _] => destruct c
+           | |- context [match ?x with Some _ => _ | None => _ end] => destruct x
+           end; simpl; intro; try reflexivity; discriminate.
+  - unfold set_data, set_field_axes.
+    repeat match goal with
+           | |- context [if ?c then _ else _] => destruct c
+           | |- context [match ?x with Some _ => _ | None => _ end] => destruct x
+           end; simpl; intro; try reflexivity; discriminate.
+  - unfold del_data. destruct (fshape s); simpl; intro; try reflexivity; discriminate.
+  - unfold set_data_axes, set_field_axes.
+    repeat match goal with
+           | |- context [if ?c then _ else _] => destruct c
+           | |- context [match ?x with Some _ => _ | None => _ end] => destruct x
+           end; simpl; intro; try reflexivity; discriminate.
+  - unfold del_data_axes.
+    repeat match goal with
+           | |- context [if ?c then _ else _] => destruct c
+           | |- context [match ?x with Some _ => _ | None => _ end] => destruct x
+           end; simpl; intro; try reflexivity; discriminate.
+  - destruct (copyable s); simpl; intro; reflexivity.
+Qed.
+
+(* the guard on inserted references is exact: without it the invariant can be
+   broken by a call that completes (the container does not validate the
+   contents of a coordinate reference - by design) *)
+Lemma unguarded_refuted :
+  exists s o, Inv s /\ snd (step s o) = Done /\ ~ Inv (fst (step s o)).
+Proof.
+  exists init, (SetConstruct VField CoordRef (PRef ["nope0"] []) None None).
+  split; [apply inv_init|]. split; [reflexivity|].
+  intro I. destruct (inv_refs _ I "coordinatereference0" ["nope0"] []) as [H _].
+  { vm_compute. left; reflexivity. }
+  destruct (H "nope0" (or_introl eq_refl)) as [t [Ht _]]. vm_compute in Ht. discriminate.
+Qed.
+
+(* non-vacuity: a history that exercises guards, the view and a rejected call,
+   whose every operation meets op_ok *)
+Definition example_history : list op :=
+  [ SetConstruct VField DomainAxis (PAxis 5) None None;
+    SetConstruct VField DomainAxis (PAxis 1) None None;
+    SetData [5] (Some ["domainaxis0"]);
+    SetConstruct VField DimCoord (PArr (Some [5]) true (Some 2)) None (Some ["domainaxis0"]);
+    SetConstruct VDomain DomainAnc (PArr (Some [5]) true None) None (Some ["domainaxis0"]);
+    SetConstruct VField CoordRef (PRef ["dimensioncoordinate0"] [("a", Some "domainancillary0")]) None None;
+    SetConstruct VField CellMethod (PCm ["domainaxis0"]) None None;
+    DelConstruct VField "dimensioncoordinate0";
+    DelConstruct VDomain "domainaxis0";
+    InsertDimension (Some "domainaxis1") (-1) false true [];
+    Squeeze None false;
+    DelConstruct VField "domainancillary0";
+    SetConstruct VField AuxCoord (PArr (Some [5; 1]) true None) None (Some ["domainaxis0"; "domainaxis1"]);
+    InsertDimension (Some "domainaxis1") 0 false true [];
+    Transpose None true true [];
+    Subspace [Some 2; Some 1];
+    Convert "auxiliarycoordinate0" true ].
+
+(* a decidable form of the guards, for the example and for the harness *)
+Definition namesb (ok : ctype -> bool) (tys : list (key * ctype)) (c : key) : bool :=
+  match assoc c tys with Some t => ok t | None => false end.
+
+Definition payload_okb (s : cstate) (p : payload) : bool :=
+  match p with
+  | PRef cs ancs => forallb (namesb is_coord (ctys s)) cs &&
+                    forallb (fun ta => match snd ta with Some a => namesb is_danc (ctys s) a | None => true end) ancs
+  | PCm axs => forallb (fun a => match axis_size (cons s) a with Some _ => true | None => false end) axs
+  | _ => true
+  end.
+
+Definition op_okb (s : cstate) (o : op) : bool :=
+  match o with
+  | SetConstruct _ _ p _ _ => payload_okb s p
+  | _ => true
+  end.
+
+Fixpoint ops_okb (s : cstate) (ops : list op) : bool :=
+  match ops with
+  | [] => true
+  | o :: r => op_okb s o && ops_okb (fst (step s o)) r
+  end.
+
+Lemma namesb_ok ok tys c : namesb ok tys c = true -> names_construct ok tys c.
+Proof.
+  unfold namesb, names_construct. destruct (assoc c tys) as [t|]; [|discriminate].
+  intro H. exists t. split; [reflexivity|assumption].
+Qed.
+
+Lemma payload_okb_ok s p : payload_okb s p = true -> payload_ok s p.
+Proof.
+  destruct p; simpl; auto.
+  - intro H. apply andb_true_iff in H as [H1 H2]. split.
+    + intros c Hc. apply namesb_ok. eapply forallb_forall in H1; eauto.
+    + intros term a Ha. eapply forallb_forall in H2; eauto. simpl in H2. apply namesb_ok; assumption.
+  - intros H a Ha. eapply forallb_forall in H; eauto. simpl in H.
+    destruct (axis_size (cons s) a); [discriminate|discriminate].
+Qed.
+
+Lemma op_okb_ok s o : op_okb s o = true -> op_ok s o.
+Proof.
+  destruct o; simpl; auto. apply payload_okb_ok.
+Qed.
+
+Lemma ops_okb_ok ops : forall s, ops_okb s ops = true -> ops_ok s ops.
+Proof.
+  induction ops as [|o r IH]; intros s H; simpl in *; [exact Coq.Init.Logic.I|].
+  apply andb_true_iff in H as [H1 H2]. split; [apply op_okb_ok; assumption|apply IH; assumption].
+Qed.
+
+Lemma example_ok : ops_ok init example_history /\
+  snd (step (run (firstn 8 example_history)) (DelConstruct VDomain "domainaxis0")) = Rejected ValueErr /\
+  cget CoordRef "coordinatereference0" (cons (run (firstn 12 example_history))) = Some (PRef [] [("a", None)]) /\
+  axis_size (cons (run (firstn 12 example_history))) "domainaxis0" = Some 5 /\
+  map (fun n => snd (step (run (firstn n example_history)) (nth n example_history Copy))) [12; 13; 14; 15; 16]%nat
+    = [Done; Done; Done; Done; Done] /\
+  fshape (run example_history) = Some [2; 1] /\
+  cget AuxCoord "auxiliarycoordinate0" (cons (run example_history)) = Some (PArr (Some [2; 1]) true None).
+Proof.
+  split; [apply ops_okb_ok; vm_compute; reflexivity|].
+  repeat split; vm_compute; reflexivity.
+Qed.
+
+(* The typing of the names held by a coordinate reference is needed: a
+   reference whose coordinates() names an existing construct that is not a
+   coordinate (here a field ancillary) is carried by convert() into a field
+   that does not hold that construct.  Every call below completes. *)
+Definition untyped_history : list op :=
+  [ SetConstruct VField DomainAxis (PAxis 3) None None;
+    SetConstruct VField FieldAnc (PArr (Some [3]) true None) None (Some ["domainaxis0"]);
+    SetConstruct VField CoordRef (PRef ["fieldancillary0"] []) None None;
+    Convert "fieldancillary0" true ].
+
+Lemma untyped_reference_refuted :
+  map (fun n => snd (step (run (firstn n untyped_history)) (nth n untyped_history Copy))) [0; 1; 2; 3]%nat
+    = [Done; Done; Done; Done] /\
+  assoc "fieldancillary0" (ctys (run (firstn 3 untyped_history))) = Some FieldAnc /\
+  cget CoordRef "coordinatereference0" (cons (run untyped_history)) = Some (PRef ["fieldancillary0"] []) /\
+  assoc "fieldancillary0" (ctys (run untyped_history)) = None.
+Proof. repeat split; vm_compute; reflexivity. Qed.
+
+(* clause (v): the domain view and the field see the same constructs - the
+   view is the field's collection minus the two ignored types, and everything
+   it shows is held and registered in the field *)
+Lemma domain_view_same s :
+  Inv s ->
+  (forall t k p, In (t, k, p) (domain_view s) <-> In (t, k, p) (cons s) /\ ignored t = false) /\
+  (forall t k p, In (t, k, p) (domain_view s) ->
+     assoc k (ctys s) = Some t /\ cget t k (cons s) = Some p /\
+     (forall axs, assoc k (caxes s) = Some axs -> exists szs, axes_sizes (cons s) axs = Some szs)).
+Proof.
+  intro I. split.
+  - intros t k p. apply (domain_view_spec s (t, k, p)).
+  - intros t k p H. apply (domain_view_spec s (t, k, p)) in H as [H _].
+    destruct (inv_held s I t k p H) as [A [_ C]]. splits; auto.
+    intros axs Ha. destruct (inv_axes s I k axs Ha) as [t0 [p0 [_ [_ [_ D]]]]].
+    unfold check_axes in D. destruct (axes_sizes (cons s) axs) as [szs|]; [eauto|discriminate].
+Qed.
+
+(* clauses (v) and (vi) in every reachable state *)
+Lemma reachable_view_describe ops :
+  ops_ok init ops ->
+  describe_ok (run ops) = true /\
+  (forall t k p, In (t, k, p) (domain_view (run ops)) <-> In (t, k, p) (cons (run ops)) /\ ignored t = false) /\
+  (forall t k p, In (t, k, p) (domain_view (run ops)) ->
+     assoc k (ctys (run ops)) = Some t /\ cget t k (cons (run ops)) = Some p).
+Proof.
+  intro H. pose proof (run_inv ops H) as I. split; [apply inv_describe; assumption|].
+  destruct (domain_view_same (run ops) I) as [A B]. split; [exact A|].
+  intros t k p Hin. destruct (B t k p Hin) as [X [Y _]]. auto.
+Qed.
